@@ -5,9 +5,11 @@
 package main
 
 import (
+	"encoding/json"
 	"flag"
 	"fmt"
 	"os"
+	"path/filepath"
 )
 
 type runCfg struct {
@@ -19,6 +21,17 @@ type runCfg struct {
 }
 
 var props = map[string]func(cfg *runCfg) error{}
+
+// Crumb records the case that is about to run.  A panic in one of the gateway's own goroutines
+// takes the whole process down and cannot be recovered here: the check then finds the crumb and
+// reports that case as the failing input.  A run that ends normally removes it.
+func (cfg *runCfg) Crumb(kind string, input interface{}) {
+	b, err := json.Marshal(map[string]interface{}{"kind": kind, "input": input})
+	if err != nil {
+		return
+	}
+	_ = os.WriteFile(filepath.Join(cfg.Out, "current_case.json"), b, 0o644)
+}
 
 func main() {
 	if len(os.Args) < 2 {
@@ -47,4 +60,5 @@ func main() {
 		fmt.Fprintln(os.Stderr, "harness error:", err)
 		os.Exit(3)
 	}
+	_ = os.Remove(filepath.Join(cfg.Out, "current_case.json"))
 }
